@@ -75,6 +75,32 @@ def use_site_lines(ctx):
     return lines
 
 
+def literal_lines(ctx):
+    """decimal literals through the assembler: the debugger's text -> number conversion must agree with the codec"""
+    rnd = random.Random(ctx.seed + 181)
+    ints = set()
+    for p in range(0, 64):
+        for d in range(-2, 3):
+            for sg in (1, -1):
+                v = sg * ((1 << p) + d)
+                if -(1 << 63) <= v < (1 << 63):
+                    ints.add(v)
+    for k in range(1, 20):
+        for sg in (1, -1):
+            for v in (10 ** k, 10 ** k - 1, 10 ** k + 1, 2 * 10 ** k, 9 * 10 ** (k - 1) + 7):
+                if -(1 << 63) <= sg * v < (1 << 63):
+                    ints.add(sg * v)
+    ints.update((-(1 << 63), (1 << 63) - 1, -(1 << 63) + 1, -9223372036854775807, -1000000000000000000, -999999999999999999))
+    for _ in range(300 if ctx.tier == "quick" else 20000):
+        ints.add(rnd.randrange(-(1 << 63), 1 << 63))
+    lines = []
+    for v in sorted(ints):
+        t = str(v)
+        lines.append("BTCC " + t.encode().hex())
+        lines.append("BTCC " + ("[" + t + " OP_SIZE]").encode().hex())
+    return lines
+
+
 def sweep_lines(ctx):
     lines = []
     if ctx.tier == "thorough":
@@ -115,6 +141,8 @@ def run(ctx):
     spec = ctx.driver_sharded(lines, "spec")
     ctx.compare("scriptnum", lines, impl, model, spec)
     R.three_way(ctx, "scriptnum-use-sites", use_site_lines(ctx))
+    ll = literal_lines(ctx)
+    ctx.compare("decimal-literals", ll, ctx.harness_sharded(ll), ctx.driver_sharded(ll, "model"), ctx.driver_sharded(ll, "spec"))
     sw = sweep_lines(ctx)
     impl = ctx.harness_sharded(sw, shards=16) if len(sw) >= 64 else [ctx.harness([l])[0] for l in sw]
     model = ctx.driver_sharded(sw, "model", shards=16) if len(sw) >= 64 else [ctx.driver([l])[0] for l in sw]
